@@ -13,7 +13,7 @@ import (
 	"golang.org/x/tools/go/ssa/ssautil"
 )
 
-const repoRoot = "/repo"
+var repoRoot = "/repo" // `govc vc` and `govc ssa` (contract development only) honour GOVC_REPO; checks always read /repo
 const modPath = "github.com/samsarahq/thunder"
 
 type World struct {
@@ -240,6 +240,18 @@ func (w *World) resolveType(pkg *types.Package, s string) (types.Type, error) {
 					return obj.Type(), nil
 				}
 			}
+		}
+		// any package of the loaded program with that name (shortest import path wins, e.g. "time")
+		var best *types.Package
+		for _, sp := range w.prog.AllPackages() {
+			if sp.Pkg != nil && sp.Pkg.Name() == q && sp.Pkg.Scope().Lookup(n) != nil {
+				if best == nil || len(sp.Pkg.Path()) < len(best.Path()) || (len(sp.Pkg.Path()) == len(best.Path()) && sp.Pkg.Path() < best.Path()) {
+					best = sp.Pkg
+				}
+			}
+		}
+		if best != nil {
+			return best.Scope().Lookup(n).Type(), nil
 		}
 		return nil, fmt.Errorf("unknown type %q", s)
 	}
